@@ -53,6 +53,9 @@ func Reset(s Schedule) {
 	visits = map[string]int{}
 	stats = map[string]*SiteStat{}
 	fset = nil
+	cacheMu.Lock()
+	mapCache = map[cacheKey]*cacheEntry{}
+	cacheMu.Unlock()
 }
 
 // Stats returns the per-site counters since the last Reset.
@@ -81,87 +84,111 @@ func CurrentFileSet() *token.FileSet {
 	return fset
 }
 
-func posKey(p token.Pos) (string, bool) {
+// skey is a canonical, run-independent sort key.
+type skey struct {
+	class byte
+	s     string
+	n     uint64
+	s2    string
+}
+
+func (a skey) less(b skey) bool {
+	if a.class != b.class {
+		return a.class < b.class
+	}
+	if a.s != b.s {
+		return a.s < b.s
+	}
+	if a.n != b.n {
+		return a.n < b.n
+	}
+	return a.s2 < b.s2
+}
+
+func posKey(p token.Pos) (string, uint64, bool) {
 	mu.Lock()
 	f := fset
 	mu.Unlock()
 	if f == nil || !p.IsValid() {
-		return "", false
+		return "", 0, false
 	}
-	pp := f.Position(p)
-	if pp.Filename == "" {
-		return "", false
+	tf := f.File(p)
+	if tf == nil {
+		return "", 0, false
 	}
-	return fmt.Sprintf("%s\x00%012d", pp.Filename, pp.Offset), true
+	return tf.Name(), uint64(tf.Offset(p)), true
 }
 
-// sortKey returns a canonical, run-independent key for k.
-func sortKey(k any) (string, bool) {
+func intKey(v int64) uint64 { return uint64(v) + (1 << 63) }
+
+// sortKey returns the canonical key of k; ok=false when its type has no
+// run-independent order (pointers to things without a source position).
+func sortKey(k any) (skey, bool) {
 	switch x := k.(type) {
 	case string:
-		return "s" + x, true
+		return skey{class: 's', s: x}, true
 	case bool:
 		if x {
-			return "b1", true
+			return skey{class: 'b', n: 1}, true
 		}
-		return "b0", true
+		return skey{class: 'b'}, true
 	case int:
-		return intKey(int64(x)), true
+		return skey{class: 'i', n: intKey(int64(x))}, true
 	case int8:
-		return intKey(int64(x)), true
+		return skey{class: 'i', n: intKey(int64(x))}, true
 	case int16:
-		return intKey(int64(x)), true
+		return skey{class: 'i', n: intKey(int64(x))}, true
 	case int32:
-		return intKey(int64(x)), true
+		return skey{class: 'i', n: intKey(int64(x))}, true
 	case int64:
-		return intKey(x), true
+		return skey{class: 'i', n: intKey(x)}, true
 	case uint:
-		return uintKey(uint64(x)), true
+		return skey{class: 'u', n: uint64(x)}, true
 	case uint8:
-		return uintKey(uint64(x)), true
+		return skey{class: 'u', n: uint64(x)}, true
 	case uint16:
-		return uintKey(uint64(x)), true
+		return skey{class: 'u', n: uint64(x)}, true
 	case uint32:
-		return uintKey(uint64(x)), true
+		return skey{class: 'u', n: uint64(x)}, true
 	case uint64:
-		return uintKey(x), true
+		return skey{class: 'u', n: x}, true
 	case uintptr:
-		return uintKey(uint64(x)), true
+		return skey{class: 'u', n: uint64(x)}, true
 	case float32:
-		return "f" + strconv.FormatFloat(float64(x), 'e', -1, 64), true
+		return skey{class: 'f', s: strconv.FormatFloat(float64(x), 'e', -1, 64)}, true
 	case float64:
-		return "f" + strconv.FormatFloat(x, 'e', -1, 64), true
+		return skey{class: 'f', s: strconv.FormatFloat(x, 'e', -1, 64)}, true
 	case *ast.Ident:
 		if x == nil {
-			return "", false
+			return skey{}, false
 		}
-		if pk, ok := posKey(x.Pos()); ok {
-			return "p" + pk + "\x00" + x.Name, true
+		if fn, off, ok := posKey(x.Pos()); ok {
+			return skey{class: 'p', s: fn, n: off, s2: x.Name}, true
 		}
-		return "", false
+		return skey{}, false
 	case ast.Node:
 		if x == nil || reflect.ValueOf(x).IsNil() {
-			return "", false
+			return skey{}, false
 		}
-		if pk, ok := posKey(x.Pos()); ok {
-			return "p" + pk + "\x00" + fmt.Sprintf("%T", x), true
+		if fn, off, ok := posKey(x.Pos()); ok {
+			return skey{class: 'p', s: fn, n: off, s2: fmt.Sprintf("%T", x)}, true
 		}
-		return "", false
+		return skey{}, false
 	case types.Object:
 		if x == nil || reflect.ValueOf(x).IsNil() {
-			return "", false
+			return skey{}, false
 		}
 		pkg := ""
 		if x.Pkg() != nil {
 			pkg = x.Pkg().Path()
 		}
-		if pk, ok := posKey(x.Pos()); ok {
-			return "o" + pkg + "\x00" + pk + "\x00" + x.Name(), true
+		if fn, off, ok := posKey(x.Pos()); ok {
+			return skey{class: 'o', s: pkg + "\x00" + fn, n: off, s2: x.Name()}, true
 		}
-		return "", false
+		return skey{}, false
 	case *types.Named:
 		if x == nil {
-			return "", false
+			return skey{}, false
 		}
 		return sortKey(types.Object(x.Obj()))
 	case reflect.Value:
@@ -190,51 +217,43 @@ func sortKey(k any) (string, bool) {
 				} else {
 					fv = rv.Index(i)
 				}
-				s, ok := reflectKey(fv)
+				fk, ok := reflectKey(fv)
 				if !ok {
-					return "", false
+					return skey{}, false
 				}
-				sb.WriteString(s)
-				sb.WriteByte(0)
+				fmt.Fprintf(&sb, "%c%s\x00%020d\x00", fk.class, fk.s, fk.n)
 			}
-			return "t" + sb.String(), true
+			return skey{class: 't', s: sb.String()}, true
 		}
 	}
-	return "", false
+	return skey{}, false
 }
 
-func intKey(v int64) string {
-	// order-preserving: offset by 2^63
-	return fmt.Sprintf("i%020d", uint64(v)+(1<<63))
-}
-
-func uintKey(v uint64) string { return fmt.Sprintf("u%020d", v) }
-
-func reflectKey(v reflect.Value) (string, bool) {
+func reflectKey(v reflect.Value) (skey, bool) {
 	if !v.IsValid() {
-		return "", false
+		return skey{}, false
 	}
 	switch v.Kind() {
 	case reflect.String:
-		return "s" + v.String(), true
+		return skey{class: 's', s: v.String()}, true
 	case reflect.Bool:
 		if v.Bool() {
-			return "b1", true
+			return skey{class: 'b', n: 1}, true
 		}
-		return "b0", true
+		return skey{class: 'b'}, true
 	case reflect.Int, reflect.Int8, reflect.Int16, reflect.Int32, reflect.Int64:
-		return intKey(v.Int()), true
+		return skey{class: 'i', n: intKey(v.Int())}, true
 	case reflect.Uint, reflect.Uint8, reflect.Uint16, reflect.Uint32, reflect.Uint64, reflect.Uintptr:
-		return uintKey(v.Uint()), true
+		return skey{class: 'u', n: v.Uint()}, true
 	case reflect.Float32, reflect.Float64:
-		return "f" + strconv.FormatFloat(v.Float(), 'e', -1, 64), true
+		return skey{class: 'f', s: strconv.FormatFloat(v.Float(), 'e', -1, 64)}, true
 	case reflect.Interface:
 		if v.IsNil() {
-			return "n", true
+			return skey{class: 'n'}, true
 		}
 		return reflectKey(v.Elem())
 	}
-	return "", false
+	return skey{}, false
 }
 
 func splitmix(x uint64) uint64 {
@@ -244,15 +263,14 @@ func splitmix(x uint64) uint64 {
 	return x ^ (x >> 31)
 }
 
-// order returns the permutation (indices into the canonically sorted key
-// list) the schedule prescribes for this visit of site; ok=false means the
-// keys have no canonical order and the runtime order is kept.
-func order(site string, keys []any) ([]int, bool) {
-	n := len(keys)
+// visit counts one iteration at site over n entries and returns the policy,
+// the visit number and the shuffle seed that apply to it.
+func visit(site string, n int) (policy string, nth int, seed uint64, st *SiteStat) {
 	mu.Lock()
-	visit := visits[site]
-	visits[site] = visit + 1
-	st := stats[site]
+	defer mu.Unlock()
+	nth = visits[site]
+	visits[site] = nth + 1
+	st = stats[site]
 	if st == nil {
 		st = &SiteStat{}
 		stats[site] = st
@@ -261,34 +279,44 @@ func order(site string, keys []any) ([]int, bool) {
 	if n >= 2 {
 		st.MultiVisits++
 	}
-	policy := sched.Default
+	policy = sched.Default
 	if o, ok := sched.Overrides[site]; ok {
 		policy = o
 	}
-	seed := sched.Seed
-	mu.Unlock()
+	return policy, nth, sched.Seed, st
+}
 
+// canonical sorts keys by their canonical key; ok=false: no canonical order.
+func canonical(keys []any) ([]any, bool) {
+	sk := make([]skey, len(keys))
+	for i, k := range keys {
+		s, ok := sortKey(k)
+		if !ok {
+			return keys, false
+		}
+		sk[i] = s
+	}
+	idx := make([]int, len(keys))
+	for i := range idx {
+		idx[i] = i
+	}
+	sort.SliceStable(idx, func(a, b int) bool { return sk[idx[a]].less(sk[idx[b]]) })
+	out := make([]any, len(keys))
+	for i, j := range idx {
+		out[i] = keys[j]
+	}
+	return out, true
+}
+
+// permute returns the order (indices into the canonical list of n entries)
+// the policy prescribes for this visit.
+func permute(site, policy string, nth int, seed uint64, n int) []int {
 	idx := make([]int, n)
 	for i := range idx {
 		idx[i] = i
 	}
-	if n < 2 {
-		return idx, true
-	}
-	sk := make([]string, n)
-	for i, k := range keys {
-		s, ok := sortKey(k)
-		if !ok {
-			mu.Lock()
-			st.Uncontrolled++
-			mu.Unlock()
-			return idx, false
-		}
-		sk[i] = s
-	}
-	sort.SliceStable(idx, func(a, b int) bool { return sk[idx[a]] < sk[idx[b]] })
 	switch {
-	case policy == "" || policy == "asc":
+	case n < 2 || policy == "" || policy == "asc":
 	case policy == "desc":
 		for i, j := 0, n-1; i < j; i, j = i+1, j-1 {
 			idx[i], idx[j] = idx[j], idx[i]
@@ -301,32 +329,125 @@ func order(site string, keys []any) ([]int, bool) {
 	default: // shuf
 		h := fnv.New64a()
 		h.Write([]byte(site))
-		x := splitmix(seed ^ h.Sum64() ^ uint64(visit)*0x9e3779b97f4a7c15)
+		x := splitmix(seed ^ h.Sum64() ^ uint64(nth)*0x9e3779b97f4a7c15)
 		for i := n - 1; i > 0; i-- {
 			x = splitmix(x)
 			j := int(x % uint64(i+1))
 			idx[i], idx[j] = idx[j], idx[i]
 		}
 	}
-	return idx, true
+	return idx
 }
+
+// order is the one-shot form used by the slice/iterator wrappers.
+func order(site string, keys []any) ([]int, bool) {
+	n := len(keys)
+	policy, nth, seed, st := visit(site, n)
+	if n < 2 {
+		return permute(site, "asc", 0, 0, n), true
+	}
+	sk := make([]skey, n)
+	for i, k := range keys {
+		s, ok := sortKey(k)
+		if !ok {
+			mu.Lock()
+			st.Uncontrolled++
+			mu.Unlock()
+			return permute(site, "asc", 0, 0, n), false
+		}
+		sk[i] = s
+	}
+	base := make([]int, n)
+	for i := range base {
+		base[i] = i
+	}
+	sort.SliceStable(base, func(a, b int) bool { return sk[base[a]].less(sk[base[b]]) })
+	perm := permute(site, policy, nth, seed, n)
+	out := make([]int, n)
+	for i, p := range perm {
+		out[i] = base[p]
+	}
+	return out, true
+}
+
+// mapCache remembers the canonical key order of a map between visits: gengo
+// iterates types.Info.Defs of a package once per function literal, and
+// sorting tens of thousands of identifiers each time would dominate the run.
+// An entry is reused only after checking that the map still holds exactly the
+// cached keys.
+type cacheEntry struct {
+	keys  []any
+	index map[any]struct{}
+	ok    bool
+}
+
+type cacheKey struct {
+	ptr  uintptr
+	site string
+}
+
+var (
+	cacheMu  sync.Mutex
+	mapCache = map[cacheKey]*cacheEntry{}
+)
 
 // Map iterates m in scheduled order. Entries deleted during the iteration are
 // not produced; entries added during it are not produced either (both allowed
 // by the language specification).
 func Map[M ~map[K]V, K comparable, V any](m M, site string) iter.Seq2[K, V] {
 	return func(yield func(K, V) bool) {
-		keys := make([]K, 0, len(m))
-		for k := range m {
-			keys = append(keys, k)
+		n := len(m)
+		policy, nth, seed, st := visit(site, n)
+		if n < 2 {
+			for k, v := range m {
+				if !yield(k, v) {
+					return
+				}
+			}
+			return
 		}
-		anyKeys := make([]any, len(keys))
-		for i, k := range keys {
-			anyKeys[i] = k
+		ck := cacheKey{reflect.ValueOf(m).Pointer(), site}
+		cacheMu.Lock()
+		ce := mapCache[ck]
+		cacheMu.Unlock()
+		if ce != nil {
+			if len(ce.keys) != n {
+				ce = nil
+			} else {
+				for k := range m {
+					if _, ok := ce.index[k]; !ok {
+						ce = nil
+						break
+					}
+				}
+			}
 		}
-		idx, _ := order(site, anyKeys)
-		for _, i := range idx {
-			k := keys[i]
+		if ce == nil {
+			keys := make([]any, 0, n)
+			index := make(map[any]struct{}, n)
+			for k := range m {
+				keys = append(keys, k)
+				index[k] = struct{}{}
+			}
+			sorted, ok := canonical(keys)
+			ce = &cacheEntry{keys: sorted, index: index, ok: ok}
+			cacheMu.Lock()
+			mapCache[ck] = ce
+			cacheMu.Unlock()
+		}
+		if !ce.ok {
+			mu.Lock()
+			st.Uncontrolled++
+			mu.Unlock()
+			for k, v := range m {
+				if !yield(k, v) {
+					return
+				}
+			}
+			return
+		}
+		for _, i := range permute(site, policy, nth, seed, n) {
+			k := ce.keys[i].(K)
 			v, ok := m[k]
 			if !ok {
 				continue
@@ -450,4 +571,3 @@ func SyncMapRange(r func(func(k, v any) bool), site string) func(func(k, v any) 
 		}
 	}
 }
-
